@@ -1455,16 +1455,15 @@ func evalTColor(p *Prog, fn *ssa.Function, dense bool) map[string]string {
 					case g != nil && wn != nil && g.idx == wn.idx:
 					case g != nil && wn == nil && comp.x < 0:
 						note("TColor:"+comp.v+">=0", w)
-					case g != nil && wn == nil:
-						note("TColor:"+comp.v+"-in-range", w)
 					case colors == 8 && comp.x >= 8 && comp.x < 16:
 						note("TColor:fold-by-8:"+comp.v, w)
-					case g != nil && wn != nil && colors != 8:
-						note("TColor:8-colour-test:"+comp.v, w)
-					case g != nil && wn != nil && comp.x < 8:
+					case colors == 8 && comp.x >= 0 && comp.x < 8:
+						// a basic colour treated as a bright one
 						note("TColor:"+comp.v+">7", w)
-					case g != nil && wn != nil:
+					case colors == 8 && comp.x >= 16 && g != nil:
 						note("TColor:"+comp.v+"<16", w)
+					case colors != 8 && g != nil && g.idx == comp.x-8:
+						note("TColor:8-colour-test:"+comp.v, w)
 					default:
 						note("TColor:"+comp.v+"-in-range", w)
 					}
